@@ -494,6 +494,26 @@ static void check_call(const Spec &d, double x, Verdict &vd, bool safety_only = 
                 bad("digits", mc::fmt("%zu fraction digits; %d significant digits at the argument's exponent %s %s %d", fr.size(), Pg,
                                       xa_str().c_str(), alt ? "need exactly" : "allow at most", allow));
         }
+        // The same rule read on the PRINTED number (necessary whatever the argument was): a number printed in
+        // fixed style has its own decimal exponent in [-4, Pg), and no more than Pg significant digits are shown
+        // (exactly Pg with #).
+        if (x != 0)
+        {
+            string digs = ip + fr;
+            size_t first = digs.find_first_not_of('0');
+            if (first != string::npos)
+            {
+                size_t nsigdig = digs.size() - first;
+                if (!echar)
+                {
+                    int Xp = ip != "0" ? (int)ip.size() - 1 : -(int)(fr.find_first_not_of('0') + 1);
+                    if (!(Xp >= -4 && Xp < Pg))
+                        bad("style", mc::fmt("fixed style used for a printed number whose exponent %d is outside [-4, %d)", Xp, Pg));
+                }
+                if (alt ? (int)nsigdig != Pg : (int)nsigdig > Pg)
+                    bad("digits", mc::fmt("%zu significant digits printed, the precision asks for %d", nsigdig, Pg));
+            }
+        }
         if (alt)
         {
             if (!dot)
@@ -510,7 +530,9 @@ static void check_call(const Spec &d, double x, Verdict &vd, bool safety_only = 
     }
     if (!why.empty())
     {
-        mc::violation("C13.print_f.shape." + tail + "." + tag, "%s: emitted %s: %s", ctx.c_str(), vis(t).c_str(),
+        // precisions above 17 (more digits than a double carries) are a class of their own
+        mc::violation("C13.print_f.shape." + tail + "." + tag + (has_prec && P > 17 ? ".precision_above_17" : ""), "%s: emitted %s: %s",
+                      ctx.c_str(), vis(t).c_str(),
                       why.c_str());
         return;
     }
